@@ -79,6 +79,30 @@ def directed():
     return g
 
 
+def large_undirected():
+    """A few structured graphs on 100-200 nodes, where counts and iteration bounds leave the range small graphs
+    exercise: a necklace of k diamonds has 2^k shortest paths between its end hubs (k = 64 reaches 2^64), a long path
+    and cycle have diameters far above the node count of the exhaustive families, a grid has binomially many geodesics."""
+    g = {}
+
+    def necklace(k, extra=()):
+        n = 3 * k + 1
+        edges = []
+        for d in range(k):
+            h, a, b, h2 = 3 * d, 3 * d + 1, 3 * d + 2, 3 * d + 3
+            edges += [(h, a), (h, b), (a, h2), (b, h2)]
+        return n, edges
+    n, e = necklace(64)
+    g['necklace64_triangle_isolated197'] = _und(n + 4, e + [(n, n + 1), (n + 1, n + 2), (n, n + 2)])
+    n, e = necklace(31)
+    g['necklace31'] = _und(n, e)
+    g['path200'] = _und(200, [(i, i + 1) for i in range(199)])
+    g['cycle151'] = _und(151, [(i, (i + 1) % 151) for i in range(151)])
+    g['grid12x12'] = _und(144, [(12 * r + c, 12 * r + c + 1) for r in range(12) for c in range(11)] +
+                          [(12 * r + c, 12 * (r + 1) + c) for r in range(11) for c in range(12)])
+    return sorted(g.items())
+
+
 def with_reversal(graphs):
     out = {}
     for k, A in graphs.items():
@@ -134,6 +158,8 @@ def family(tag):
         # every free tree on 8 and 9 nodes under the scan orders of bctmc/trees.py (3354 labelled trees)
         from bctmc import trees
         _FAM[tag] = trees.shape_family(8) + trees.shape_family(9)
+    if tag == 'large_und' and tag not in _FAM:
+        _FAM[tag] = large_undirected()
     if tag == 'bintree8_und' and tag not in _FAM:
         from bctmc import trees
         _FAM[tag] = trees.shape_family(8)
